@@ -98,13 +98,18 @@ def _differential(g, insts, opt_in, inconsistent, marker, remote, proto, label):
         return Outcome(label + ".std-pickle-saw-remote-flag", True)
     del pk.LOG[:]
     if inconsistent and not marker and remote:
-        got = _attempt(lambda: rp.dumps(g, protocol=proto, remote=True))
-        if got != ("exc", "Warning"):
-            return Outcome(label + ".duck-inconsistent-not-rejected", True)
+        # rejected every time, not only the first time the class is seen (the type check is cached)
+        for attempt, pr in enumerate((proto, proto, 2 if proto != 2 else 3)):
+            got = _attempt(lambda: rp.dumps(g, protocol=pr, remote=True))
+            if got != ("exc", "Warning"):
+                return Outcome(label + (".duck-inconsistent-not-rejected" if attempt == 0 else ".duck-inconsistent-accepted-on-retry"), True)
         return Outcome(None, True)
     if opt_in and remote:
         return Outcome(None, False)      # remote serialisation of opt-in classes is C14's subject
     got = _attempt(lambda: pk.canon(rp.loads(rp.dumps(g, protocol=proto, remote=bool(remote))), ignore=()))
+    again = _attempt(lambda: pk.canon(rp.loads(rp.dumps(g, protocol=proto, remote=bool(remote))), ignore=()))
+    if again != got:
+        return Outcome(label + ".second-round-trip-differs-from-first", True, "first=%r second=%r" % (got, again))
     if _saw_remote():
         return Outcome(label + ".getstate-remote-true-without-opt-in", True)
     if got != std:
